@@ -1394,7 +1394,11 @@ def rule_H2(repo: Repo) -> RuleResult:
         res.bad(f, f.node, "group starts", "the group start offsets are no longer the running sum starts[g+1] = starts[g] + counts[g]")
     loop = None
     for l in walk_no_nested(f.node):
-        if isinstance(l, ast.For) and any(isinstance(x, ast.Name) and x.id in roles.code_vars for x in ast.walk(l.target)):
+        # the loop whose every iteration handles one row: the code is its target (`for k in arr`) or is read from the chunk
+        # at the loop index as a statement of its body (`for j in range(len(arr)): k = arr[j]`)
+        if isinstance(l, ast.For) and (any(isinstance(x, ast.Name) and x.id in roles.code_vars for x in ast.walk(l.target)) or any(
+                isinstance(s_, ast.Assign) and len(s_.targets) == 1 and isinstance(s_.targets[0], ast.Name)
+                and s_.targets[0].id in roles.code_vars for s_ in l.body)):
             loop = l
     if loop is None:
         raise AnalysisError("H2: row loop of the counting sort not found")
